@@ -51,6 +51,17 @@ impl Arg {
     }
 }
 
+/// `node(id: 7)` and `node(id: "7")` ask the same question (an Int literal is coerced to the ID "7"), and
+/// the store keeps ONE value for both (`node____id___7`): numbers and their decimal strings are one key
+fn coerce_numbers(v: J) -> J {
+    match v {
+        J::Number(n) => J::String(n.to_string()),
+        J::Array(a) => J::Array(a.into_iter().map(coerce_numbers).collect()),
+        J::Object(m) => J::Object(m.into_iter().map(|(k, x)| (k, coerce_numbers(x))).collect()),
+        other => other,
+    }
+}
+
 #[derive(Debug)]
 pub struct Operation {
     pub kind: String,
@@ -338,7 +349,7 @@ impl<'a> Gen<'a> {
                 Sel::Field { key, name, args, sub } => {
                     let mut evaluated = Map::new();
                     for (k, v) in args {
-                        evaluated.insert(k.clone(), v.eval(&self.vars));
+                        evaluated.insert(k.clone(), coerce_numbers(v.eval(&self.vars)));
                     }
                     // serde_json's Map is sorted by key (no `preserve_order`), so this is canonical
                     let args_key = serde_json::to_string(&J::Object(evaluated)).unwrap_or_default();
